@@ -64,8 +64,10 @@ func zzParseAttrs(spec string) []*onnx.AttributeProto {
 		switch name {
 		case "perm", "axes", "pads", "strides", "dilations", "kernel_shape":
 			var is []int64
-			for _, x := range zzSplit(val, ',') {
-				is = append(is, int64(zzAtoi(x)))
+			if val != "" { // "perm=" is the attribute with an empty list
+				for _, x := range zzSplit(val, ',') {
+					is = append(is, int64(zzAtoi(x)))
+				}
 			}
 			out = append(out, &onnx.AttributeProto{Name: name, Type: onnx.AttributeProto_INTS, Ints: is})
 		case "auto_pad", "direction":
@@ -267,6 +269,10 @@ func H_C01(v *zzverif.T) {
 				referr = ErrModel("reference: declared output %v is never produced", name)
 			}
 		}
+	}
+	if v.Has("evaluates") && v.CBool("evaluates") {
+		// a well-formed graph of supported operators on fitting shapes: it is evaluated, not refused
+		v.Assert("C01.well-formed-graph-is-evaluated", rerr == nil)
 	}
 	v.Assert("C01.error-iff-the-composition-fails", (rerr != nil) == (referr != nil))
 	if rerr != nil || referr != nil {
